@@ -43,6 +43,16 @@ fn fill(fd: i32) {
 }
 
 fn main() {
+    // the whole probe runs in a forked child under a time limit: a delivery that does not return
+    // (e.g. a wake that retries on a full pipe) is reported as `hang 1` instead of hanging the check
+    let o = sh_harness::forked::run_child(|| { real_main(); 0 }, std::time::Duration::from_secs(15));
+    match o {
+        sh_harness::forked::Outcome::Exited(0) => {}
+        other => println!("hang 1 {}", other.text()),
+    }
+}
+
+fn real_main() {
     let bursts: usize = std::env::args().nth(1).and_then(|a| a.parse().ok()).unwrap_or(3);
     let sig = libc::SIGUSR1;
     let flag = Arc::new(AtomicBool::new(false));
